@@ -2,28 +2,23 @@ use vh::vnode::*;
 fn main() {
     let schema = "CREATE TABLE t (id INTEGER PRIMARY KEY NOT NULL, a TEXT NOT NULL DEFAULT '', b TEXT NOT NULL DEFAULT '');";
     let tpl0 = Template::build(0, schema);
-    let n = 200;
-    let t = std::time::Instant::now();
-    for _ in 0..n {
-        let rt = new_runtime(2);
-        let s = Scratch::new("smoke");
-        rt.block_on(async {
-            let p0 = tpl0.instantiate(&s.path().join("n0"));
-            let n0 = Node::open(&p0, NodeOpts::default()).await;
-            drop(n0);
+    let s = Scratch::new("smoke");
+    for par in [1usize, 4, 8] {
+        let t = std::time::Instant::now();
+        std::thread::scope(|sc| {
+            for th in 0..par {
+                let tpl0 = &tpl0;
+                let s = &s;
+                sc.spawn(move || {
+                    for i in 0..6 {
+                        let p0 = tpl0.instantiate(&s.path().join(format!("n{par}_{th}_{i}")));
+                        let mut f = FullNode::start(&p0).unwrap();
+                        let _ = f.run(async |nd| nd.sync_state().await);
+                        drop(f);
+                    }
+                });
+            }
         });
-        drop(rt);
+        println!("par {par}: {:?} per start", t.elapsed() / (6 * par as u32));
     }
-    println!("open+drop: {:?} per exec", t.elapsed() / n);
-    let t = std::time::Instant::now();
-    let rt = new_runtime(2);
-    for _ in 0..n {
-        let s = Scratch::new("smoke");
-        rt.block_on(async {
-            let p0 = tpl0.instantiate(&s.path().join("n0"));
-            let n0 = Node::open(&p0, NodeOpts::default()).await;
-            drop(n0);
-        });
-    }
-    println!("open+drop shared rt: {:?} per exec", t.elapsed() / n);
 }
